@@ -13,7 +13,7 @@ DICT_ANNS = ['array', 'attributes']
 TOKENS = ['full', 'none', 'container', 'utf8', 'gint', 'GLib.List', 'n', 'user_data', 'caller-allocates', 'foo_bar', 'Foo.Bar', '1', 'x-y.z', 'call',
           'gchar*', 'a']
 KEYS = ['length', 'fixed-size', 'zero-terminated', 'org.gtk.Method', 'k', 'doc.key']
-VALS = ['n', '3', '1', '0', 'some.value', 'v', None]
+VALS = ['n', '3', '1', '0', 'some.value', 'v', None, 'name=foo', 'a==b', '=', 'x=']
 
 
 def gen_ann(rng, wild=False):
